@@ -12,6 +12,8 @@ package main
 //   <dump>    ","-joined key=value (values as bytes)
 
 import (
+	"encoding/json"
+	_ "embed"
 	"fmt"
 	"math/rand"
 	"os"
@@ -468,9 +470,52 @@ func assignedFields(t string) []string {
 	return out
 }
 
-// coveredBy: the options whose block assigns every field that `n`'s block assigns
+// documentedCoverers: "also sets" relations stated in the man page — they hold whatever the source
+// under test assigns where (--scheme "also sets --tiebreak=…")
+var documentedCoverers = map[string][]string{"--tiebreak": {"--scheme"}}
+
+// pinnedCovers: the relation as derived from the pinned source (`harness covers > option_covers.json`).
+// The relation used is the union of this one and the one derived from the tree under test, so that a
+// change to which fields an option assigns cannot take its own pair out of the sweep.
+//
+//go:embed option_covers.json
+var pinnedCoversJSON []byte
+var pinnedCovers map[string][]string
+
+func derivedCovers() map[string][]string {
+	optionVocabulary()
+	out := map[string][]string{}
+	for _, n := range optNames {
+		saved := pinnedCovers
+		pinnedCovers = map[string][]string{}
+		c := coveredBy(n)
+		pinnedCovers = saved
+		if len(c) > 0 {
+			out[n] = c
+		}
+	}
+	return out
+}
+
+// coveredBy: the options whose block assigns every field that `n`'s block assigns, and the documented ones
 func coveredBy(n string) []string {
-	out := []string{}
+	if pinnedCovers == nil {
+		pinnedCovers = map[string][]string{}
+		json.Unmarshal(pinnedCoversJSON, &pinnedCovers)
+	}
+	out := append([]string{}, documentedCoverers[n]...)
+	for _, m := range pinnedCovers[n] {
+		known, dup := false, false
+		for _, x := range optNames {
+			known = known || x == m
+		}
+		for _, x := range out {
+			dup = dup || x == m
+		}
+		if known && !dup {
+			out = append(out, m)
+		}
+	}
 	if len(optFields[n]) == 0 {
 		return out
 	}
@@ -482,7 +527,11 @@ func coveredBy(n string) []string {
 		for f := range optFields[n] {
 			all = all && optFields[m][f]
 		}
-		if all {
+		dup := false
+		for _, x := range out {
+			dup = dup || x == m
+		}
+		if all && !dup {
 			out = append(out, m)
 		}
 	}
